@@ -438,6 +438,9 @@ def cases(tier, seed):
                 c['expect_error'] = True
             out.append(c)
         out.append({'op': 'put_matrix', 'r': r, 'c': k, 'bits': 3, 'ind': [0, n - 1], 'r2': 1, 'c2': 2, 'bits2': 3})
+        if n >= 3:      # a value row-vector shorter than the index list (its last value repeats) and a longer one
+            out.append({'op': 'put_matrix', 'r': r, 'c': k, 'bits': 3, 'ind': [0, n - 1, 1], 'r2': 1, 'c2': 2, 'bits2': 3})
+            out.append({'op': 'put_matrix', 'r': r, 'c': k, 'bits': 3, 'ind': [n - 2], 'r2': 1, 'c2': 3, 'bits2': 2})
         out.append({'op': 'hstack', 'r': r, 'c': k, 'bits': 3, 'r2': r, 'c2': 2, 'bits2': 3})
         out.append({'op': 'vstack', 'r': r, 'c': k, 'bits': 3, 'r2': 2, 'c2': k, 'bits2': 3})
         out.append({'op': 'concat1', 'r': r, 'c': k, 'bits': 3, 'r2': 1, 'c2': k, 'bits2': 3})
